@@ -41,3 +41,14 @@ int snprintf(char *s, size_t n, const char *f, ...)
     if (n > 0) { s[0] = 0; }
     int r; __CPROVER_assume(r >= 0 && r < 64); return r;
 }
+#include <wchar.h>
+wchar_t *wcsstr(const wchar_t *h, const wchar_t *n)
+{
+    /* the library only ever searches for L"%n" (reading the wide literal through the parameter is
+       mis-modelled by this cbmc version, so the needle is spelled out) */
+    (void)n;
+    for (size_t i = 0; ; i++) {
+        if (!h[i]) return NULL;
+        if (h[i] == L'%' && h[i + 1] == L'n') return (wchar_t *)(h + i);
+    }
+}
